@@ -31,7 +31,7 @@ def run(ck, ctx):
     try:
         import importlib
         importlib.import_module("sdpverif.specs.alter")
-        frs += [("alter", {})]
+        frs += [("alter", {"judge": False})]
     except ImportError:
         ck.note("alter / index fragment not built yet")
     from ..rules.fragments import run_fragments
